@@ -82,7 +82,7 @@ theorem parse_reparses_seq (st : PadStyle) (txt : Bytes) (s : Seq) (h : Seq.pars
 
 /-- every setter, Copy and Split keep that property (Normalize, which installs a frame set
     printed from blocks, is treated separately) -/
-theorem apply_reparses (s : Seq) (op : SeqOp) (h : Seq.Reparses s) (hop : op ≠ .normalize) :
+theorem apply_reparses (s : Seq) (op : SeqOp) (h : Seq.Reparses s) (hop : op.derived = false) :
     Seq.Reparses (s.apply op) := by
   cases op with
   | setDirname d => exact fun fs hfs => h fs hfs
@@ -109,14 +109,15 @@ theorem apply_reparses (s : Seq) (op : SeqOp) (h : Seq.Reparses s) (hop : op ≠
       simp [Seq.setFrameSet, Except.toOption] at hfs
       subst hfs
       exact parse_reparses r fs' hr
-  | normalize => exact absurd rfl hop
+  | normalize => simp [SeqOp.derived] at hop
+  | invertSet => simp [SeqOp.derived] at hop
   | copy =>
     show Seq.Reparses s.copy
     rw [copy_eq s h]; exact h
   | split => exact h
 
 theorem run_reparses (s : Seq) (ops : List SeqOp) (h : Seq.Reparses s)
-    (hops : ∀ op ∈ ops, op ≠ SeqOp.normalize) : Seq.Reparses (s.run ops) := by
+    (hops : ∀ op ∈ ops, op.derived = false) : Seq.Reparses (s.run ops) := by
   induction ops generalizing s with
   | nil => exact h
   | cons op ops ih =>
